@@ -239,8 +239,68 @@ func extractGrpcBroker(p *pkgs, f *facts) {
 	} else {
 		f.miss = append(f.miss, "GRPCServerMuxer.Accept")
 	}
-	f.lean = append(f.lean, fmt.Sprintf("def grpcMux : GrpcMux.Params := ⟨%s, %d, true, %s⟩", leanBool(registerFirst), max64(tokCap, 0), leanBool(handoffBlocks)))
-	f.set("grpcMux", map[string]interface{}{"registerFirst": registerFirst, "knockChCap": tokCapS, "waitChCap": tokCapC})
+	// knocksExpire: in Run's knock branch (`msg.Knock != nil && … && !msg.Knock.Ack`) a goroutine `go m.<E>(p, msg)` is
+	// started whose method E waits on a timer SHORTER than the dialler's wait for the ack (the time.After arm of the select
+	// in `knock`) and then receives from `p.ch`
+	knocksExpire := false
+	if run := p.fn("GRPCBroker", "Run"); run != nil {
+		var knockWait int64 = -1
+		if kn := p.fn("GRPCBroker", "knock"); kn != nil {
+			ks, _ := selectsOf(p, kn)
+			for _, si := range ks {
+				if len(si.timers) > 0 {
+					knockWait = si.timers[0]
+				}
+			}
+		}
+		ast.Inspect(run.Body, func(n ast.Node) bool {
+			is, ok := n.(*ast.IfStmt)
+			if !ok {
+				return true
+			}
+			c := exprString(is.Cond)
+			if !(strings.Contains(c, "Knock") && strings.Contains(c, "!") && strings.Contains(c, "Ack")) {
+				return true
+			}
+			for _, st := range is.Body.List {
+				g, ok := st.(*ast.GoStmt)
+				if !ok {
+					continue
+				}
+				se, ok := g.Call.Fun.(*ast.SelectorExpr)
+				if !ok || len(g.Call.Args) != 2 {
+					continue
+				}
+				e := p.fn("GRPCBroker", se.Sel.Name)
+				if e == nil || e.Type.Params == nil || len(e.Type.Params.List) == 0 {
+					continue
+				}
+				slotParam := ""
+				if len(e.Type.Params.List[0].Names) == 1 {
+					slotParam = e.Type.Params.List[0].Names[0].Name
+				}
+				es, _ := selectsOf(p, e)
+				var expiry int64 = -1
+				drains := false
+				for _, si := range es {
+					if len(si.timers) > 0 && expiry < 0 {
+						expiry = si.timers[0]
+					}
+					for _, cm := range si.comms {
+						if strings.Contains(cm, "<-"+slotParam+".ch") && !strings.HasPrefix(cm, slotParam+".ch<-") {
+							drains = true
+						}
+					}
+				}
+				if slotParam != "" && drains && expiry > 0 && knockWait > 0 && expiry < knockWait {
+					knocksExpire = true
+				}
+			}
+			return true
+		})
+	}
+	f.lean = append(f.lean, fmt.Sprintf("def grpcMux : GrpcMux.Params := ⟨%s, %d, true, %s, %s⟩", leanBool(registerFirst), max64(tokCap, 0), leanBool(handoffBlocks), leanBool(knocksExpire)))
+	f.set("grpcMux", map[string]interface{}{"registerFirst": registerFirst, "knocksExpire": knocksExpire, "knockChCap": tokCapS, "waitChCap": tokCapC})
 }
 
 // nodeCalls renders every call expression under n.
